@@ -362,6 +362,38 @@ def builders(model):
         lambda I, S: I.binop(ast.Mult, inst(
             I, 'MultiplyOperator', sym_elem(S['C'], 'm')), inst(
                 I, 'ComplexEmbedding', S['R'], sym_scalar('s', True))))
+    # ---- discrete Fourier transforms (exact FFT model for lengths 2, 4) ----
+    def F(shape, cx=True, vol=True):
+        hs = [Rat.var('h%d' % i) for i in range(len(shape))]
+        w = Rat.const(1)
+        for h in hs:
+            w = w * h
+        return NSpace(shape, 'complex128' if cx else 'float64',
+                      w if vol else Rat.const(1), cell_sides=hs)
+    for shape, axes, sign, t in (((4,), None, '-', 'shape 4'),
+                                 ((4,), None, '+', "shape 4, sign '+'"),
+                                 ((2, 4), None, '-', 'shape 2x4'),
+                                 ((2, 4), (1,), '-', 'shape 2x4, axes (1,)'),
+                                 ((4, 2), (0,), '+',
+                                  "shape 4x2, axes (0,), sign '+'")):
+        B['DiscreteFourierTransform[%s]' % t] = (
+            lambda I, S, shape=shape, axes=axes, sign=sign: inst(
+                I, 'DiscreteFourierTransform', F(shape), axes=axes,
+                sign=sign, impl='numpy'))
+        B['DiscreteFourierTransformInverse[%s]' % t] = (
+            lambda I, S, shape=shape, axes=axes, sign=sign:
+            I.getattr_value(inst(
+                I, 'DiscreteFourierTransform', F(shape), axes=axes,
+                sign=sign, impl='numpy'), 'inverse'))
+    B['DiscreteFourierTransform[shape 4, unit cells]'] = (
+        lambda I, S: inst(I, 'DiscreteFourierTransform', F((4,), vol=False),
+                          impl='numpy'))
+    B['DiscreteFourierTransform[shape 4, real, halfcomplex]'] = (
+        lambda I, S: inst(I, 'DiscreteFourierTransform', F((4,), cx=False),
+                          halfcomplex=True, impl='numpy'))
+    B['DiscreteFourierTransform[shape 2x4, real, full]'] = (
+        lambda I, S: inst(I, 'DiscreteFourierTransform', F((2, 4), cx=False),
+                          halfcomplex=False, impl='numpy'))
     return B
 
 
@@ -384,6 +416,54 @@ class H5(SMHooks):
                 return {'Lt': sg < 0, 'LtE': sg <= 0, 'Gt': sg > 0,
                         'GtE': sg >= 0}[k]
         return SMHooks.on_decide(self, interp, cond, node)
+
+    # ---- what the discrete Fourier transforms read from their spaces -----
+    def on_getattr(self, interp, obj, name):
+        if isinstance(obj, NSpace) and obj.cell_sides is not None:
+            if name == 'grid':
+                return Rec('grid', shape=tuple(obj.shape),
+                           ndim=len(obj.shape))
+            if name == 'tspace':
+                return Rec('tspace', impl='numpy')
+        if isinstance(obj, Rec) and name in obj.attrs:
+            return obj.attrs[name]
+        return SMHooks.on_getattr(self, interp, obj, name)
+
+    def on_call(self, interp, f, args, kwargs, node):
+        nm = getattr(f, 'name', None)
+        if isinstance(f, Func) and nm == 'reciprocal_grid':
+            # only its shape is read: the shape of the grid, halved (+1) in
+            # the last transformed axis for half-complex transforms
+            grid = args[0]
+            shape = list(grid.attrs['shape'])
+            axes = kwargs.get('axes')
+            axes = list(range(len(shape))) if axes is None else [
+                int(a) % len(shape) for a in (
+                    axes.a.tolist() if isinstance(axes, NA) else
+                    ([axes] if isinstance(axes, int) else axes))]
+            if kwargs.get('halfcomplex') and axes:
+                shape[axes[-1]] = shape[axes[-1]] // 2 + 1
+            return Rec('grid', shape=tuple(shape), ndim=len(shape))
+        if isinstance(f, Func) and nm in ('complex_dtype', 'real_dtype') \
+                and args and isinstance(args[0], DT):
+            d = args[0].d
+            if nm == 'complex_dtype':
+                return DT('complex64' if d in (_np.dtype('float32'),
+                                               _np.dtype('complex64'))
+                          else 'complex128')
+            return DT('float32' if d in (_np.dtype('float32'),
+                                         _np.dtype('complex64'))
+                      else 'float64')
+        if isinstance(f, Func) and nm == 'uniform_discr':
+            # uniform_discr([0] * n, shape - 1, shape, dtype, impl,
+            # nodes_on_bdry=True): unit cells, default weighting 1
+            shp = args[2]
+            shp = tuple(int(to_rat(z).constant()) for z in (
+                shp.a.tolist() if isinstance(shp, NA) else shp))
+            dt = args[3] if len(args) > 3 else kwargs.get('dtype')
+            return NSpace(shp, getattr(dt, 'd', dt), Rat.const(1),
+                          cell_sides=[Rat.const(1)] * len(shp))
+        return SMHooks.on_call(self, interp, f, args, kwargs, node)
 
 
 def evaluate(model, build):
